@@ -309,6 +309,7 @@ impl Run {
                 }
                 let sth = StreamHandle::new("cl", st.id);
                 let sih = SinkHandle::new("cl", st.id);
+                sih.st().encode_check = true; // a real framed writer with a persistent write buffer
                 let ms = MockStream { h: sth.clone(), log: self.log.clone(), describe: self.describe_cl_stream() };
                 let mk = MockSink { h: sih.clone(), log: self.log.clone(), describe: self.describe_cl_sink(st.id) };
                 self.ctx.lock().unwrap().fifo.push_back(("cl".into(), st.id));
